@@ -314,6 +314,10 @@ func (n *CandidateNode) CreateReplacement(kind Kind, tag string, value string) *
 func (n *CandidateNode) CopyAsReplacement(replacement *CandidateNode) *CandidateNode {
 	newCopy := replacement.Copy()
 	newCopy.Parent = n.Parent
+	if n.Parent == nil {
+		// what replaces a document root is still a value of that document and file
+		newCopy.document, newCopy.filename, newCopy.fileIndex = n.document, n.filename, n.fileIndex
+	}
 
 	if n.IsMapKey {
 		newCopy.Key = n
